@@ -14,6 +14,10 @@ Failing operations:
                  back to where it was (the caller's duty, not the library's)
   parse-fault    a parse at the current position with an injected stream fault, caller seeks back
   parse-bytes    a parse of a truncated bytes object (no stream involved: residue in the types)
+
+(u1) `cut_targets`: the property's first clause at a dereference - a pointer target that is cut off by the end of the stream (found
+by parsing the target from the stream extended by filler bytes) must make the dereference raise or return the value of the
+complete target; the targets include dynamic structures whose count member is called EOF / a Python keyword.
 """
 from __future__ import annotations
 
@@ -67,6 +71,10 @@ TARGETS = [
     ("struct", [F("k", S("uint8")), F("s", ("arr", S("char"), ("null",))), F("v", S("uint32"))]),
     ("struct", [F("a", S("uint32")), F("b", ("arr", S("uint16"), ("fixed", 3)))]),
     S("uleb128"),
+    # (u1) dynamic targets whose count member has an unusual-but-legal name: `EOF` as a member makes d[EOF] an array of definite length
+    ("struct", [F("EOF", S("uint8")), F("data", ("arr", S("char"), ("expr", "EOF")))]),
+    ("struct", [F("EOF", S("uint16")), F("d", ("arr", S("uint16"), ("expr", "EOF & 3"))), F("e", ("arr", S("uint8"), ("expr", "EOF")))]),
+    ("struct", [F("if", S("uint8")), F("s", ("arr", S("wchar"), ("expr", "if & 3")))]),
 ]
 
 
@@ -171,6 +179,38 @@ def deref_outcome(p, depth=2):
 
 def failed(outcome):
     return outcome[0] == "err" or (outcome[0] == "ptr" and failed(outcome[2]))
+
+
+def cut_targets(T, stream: bytes, filler: bytes):
+    """(u1) the first clause of the property at a dereference: for every pointer of the records in `stream` whose target starts
+    inside the stream, the target is also parsed from the stream EXTENDED by `filler` (the complete input of which the real
+    stream is a shortened one).  Targets that reach beyond the end of the real stream are returned as
+    (path, address, outcome of dereferencing on the real stream, canonical value on the extended stream, its end): the
+    dereference must raise, or return that very value (when only tail padding is cut off)."""
+    m = impl.dc()
+    s = io.BytesIO(stream)
+    recs = []
+    try:
+        recs.append(T(s))
+        recs.append(T.read(s))
+    except Exception:  # noqa: BLE001
+        pass
+    out = []
+    for ri, rec in enumerate(recs):
+        for path, p in pointers(rec, f"rec{ri + 1}"):
+            addr, tt = int(p), p.type
+            if not 0 < addr < len(stream) or issubclass(tt, m.Void):
+                continue
+            ext = io.BytesIO(stream + filler)
+            ext.seek(addr)
+            try:
+                v = tt._read_0(ext, None) if issubclass(tt, m.Char) else tt._read(ext, None)
+            except Exception:  # noqa: BLE001
+                continue
+            if ext.tell() <= len(stream):
+                continue
+            out.append((path, addr, deref_outcome(p, depth=1), impl.canon(v), ext.tell()))
+    return out
 
 
 # ------------------------------------------------------------------------------------------------ the stream
